@@ -1,5 +1,6 @@
 import MpVerif.C03.LemmasMain
 import MpVerif.C03.LemmasNum
+import MpVerif.C03.LemmasGen
 /-!
 # C03 — NL writer output is read back as the same model (text = binary)
 
@@ -190,6 +191,86 @@ theorem C03_call_zero_args (c : RCtx) (o : Opts) (fi : Nat) (d : String) (f : Na
   have := readE_wE c o (.call fi d []) .num (f + 1) rest hwf (by simp [esize, esizes])
   simpa [hE, hEs] using this
 
+/-! ## ties to the source: the hand model equals what the translator extracts from the current tree
+(`MpVerif/Gen/C03Writer.lean`, regenerated on every run by `translators/gen_writer_c03.py` from clang's AST of
+`NLWriter2::WriteNLHeader` / `WriteBndRangeOrCompl` and from the text of `nput`, `OPut*`, `ReadBounds`) -/
+open MpVerif.Gen.C03Writer in
+/-- **header layout**: the ten header-line functions of the model are the evaluation of the `Printf` statements of
+    `WriteNLHeader` (which count on which line, in which order, under which condition, with which format), for every header
+    and both formats.  Hence every theorem about `wHeader`/`writeNL` is a theorem about the extracted statements. -/
+theorem C03_gen_header (h : Hdr) (o : Opts) : HStmt.toksL h o genHeader = wHeader h o := gen_header h o
+
+open MpVerif.Gen.C03Writer in
+/-- every header field the extracted statements mention is one the evaluator knows by name (its default `0` for unknown names
+    is never used): a field added to or renamed in `WriteNLHeader` breaks this -/
+theorem C03_gen_header_fields_known : (HStmt.fieldsL genHeader).all (fun n => knownFields.contains n) = true := by decide
+
+open MpVerif.Gen.C03Writer in
+/-- the header round trip, stated on the statements extracted from the source -/
+theorem C03_gen_header_roundtrip (cd : Codec) (o : Opts) (h : Hdr) (rest : List Tok) (hok : hdrOk h = true) :
+    readHeader cd (HStmt.toksL h o genHeader ++ rest) = .ok (readBackHdr cd h o, rest) := by
+  rw [gen_header]; exact readHeader_wHeader cd o h rest hok
+
+open MpVerif.Gen.C03Writer in
+/-- **bounds-type decision**: `wBnd` is the evaluation of the if/?: tree of `WriteBndRangeOrCompl` (tests `k <= 0`,
+    `L <= NegInfty()`, `U >= Infty()`, `L == U`; leaves = format and arguments), for all doubles and all k, cvar -/
+theorem C03_gen_bounds (L U : Dbl) (k cvar : Nat) : bndTree.eval L U k cvar = wBnd L U k cvar := gen_bounds L U k cvar
+
+open MpVerif.Gen.C03Writer in
+/-- **binary `nput`**: the model's range test uses the two constants of the source, and the three branches start with the
+    letters of the three formats of the source (`s%h`, `l%l`, `n%g`; text: `n%g\n`) -/
+theorem C03_gen_nput (x : Dbl) (o : Opts) (hb : o.binary = true) :
+    wNum o x =
+      (match x.toInt? with
+       | some v =>
+         if nputLo ≤ v ∧ v ≤ nputHi then
+           (if -32768 ≤ v ∧ v ≤ 32767 then [.ch .exS, .sh v, .eol] else [.ch .exL, .lg v, .eol])
+         else [.ch .exN, .dbl x, .eol]
+       | none => [.ch .exN, .dbl x, .eol]) ∧
+    nputFmtShort = [.lit Tag.exS.toChar, .dShort] ∧ nputFmtLong = [.lit Tag.exL.toChar, .dLong] ∧
+    nputFmtDbl = [.lit Tag.exN.toChar, .dDbl] ∧ nputFmtText = [.lit Tag.exN.toChar, .dDbl, .nl] := by
+  refine ⟨?_, by decide, by decide, by decide, by decide⟩
+  simp only [wNum, hb, if_true, nputLo, nputHi]
+  rfl
+
+open MpVerif.Gen.C03Writer in
+/-- **operator emission**: `OPut1/2/3` return writers for 1/2/3 arguments after `o<opcode>`; `OPutN` writes the argument count on
+    its own line, halved exactly for the opcode literal of the source, which is the PL-term opcode of the generated table;
+    the model's `opN` case writes that count -/
+theorem C03_gen_oput (o : Opts) (oc : Nat) (d : String) (args : List Expr) :
+    oputFixed.map (·.2) = [1, 2, 3] ∧
+    oputFixed.map (·.1) = [[.lit 'o', .dInt, .tab, .lit '#', .dStr, .nl], [.lit 'o', .dInt, .tab, .lit '#', .dStr, .nl],
+                           [.lit 'o', .dInt, .tab, .lit '#', .dStr, .nl]] ∧
+    oputN.1 = [.lit 'o', .dInt, .tab, .lit '#', .dStr, .nl] ∧ oputN.2.2.2 = [.dInt, .nl] ∧
+    writerKind oputN.2.1 = some MpVerif.Gen.OpcodesW.kv_PLTERM ∧
+    wE o (.opN oc d args) = [.ch .exO, .int oc] ++ cmtEol o d ++
+      [.int (if oc = oputN.2.1 then args.length / oputN.2.2.1 else args.length), .eol] ++ wEs o args ∧
+    funcPutFmt = [.lit 'f', .dInt, .sp, .dInt, .tab, .lit '#', .dStr, .nl] ∧
+    vPutFmt = [.lit 'v', .dInt, .tab, .lit '#', .dStr, .nl] ∧ strPutFmt = [.lit 'h', .dInt, .lit ':', .dStr, .nl] := by
+  refine ⟨by decide, by decide, by decide, by decide, by decide, ?_, by decide, by decide, by decide⟩
+  simp only [wE, oputN]
+  rfl
+
+open MpVerif.Gen.C03Writer in
+/-- **every `apr` format of the writer templates** (in source order) is one the model was written against: a changed, added
+    or removed format string breaks this equality -/
+theorem C03_gen_formats : aprFormats =
+    ["F%d %d %d %s\n", "%d %d\n", "%d %g\n", "b\t#%d bounds (on variables)\n", "r\t#%d ranges (rhs's)\n",
+     "3\n", "1 %.16g\n", "2 %.16g\n", "4 %.16g\n", "0 %.16g %.16g\n", "5 %d %d\n",
+     "%c%d\t#%s\n", "%c%d\t#%s\n", "%c%d %d\t#%s\n",
+     "k%d\t#intermediate Jacobian column lengths\n", "k%d\t#intermediate Jacobian column lengths (cumulative)\n",
+     "K%d\t#intermediate Jacobian column lengths\n", "J%d %d\n", "G%d %d\n",
+     "v%d\t#%s\n", "h%d:%s\n", "f%d %d\t#%s\n", "o%d\t#%s\n", "o%d\t#%s\n", "o%d\t#%s\n", "o%d\t#%s\n", "%d\n",
+     "V%d %d %d\t#%s\n", "S%d %d %s\n", "S%d %d %s\n", "R%d\t# %s\n",
+     "x%d\t# initial guess\n", "d%d\t# initial dual guess\n", "%z\n", "%d\n"] := by decide
+
+open MpVerif.Gen.C03Writer in
+/-- **the reader's inverse switch** (`NLReader::ReadBounds`): the digit selects, in this order, range / upper / lower / free /
+    constant / complementarity, with lb and ub read or set to ∓∞ exactly as `readBndItems` does -/
+theorem C03_gen_readBounds : readBounds =
+    [("RANGE", "read", "read"), ("UPPER", "neg-inf", "read"), ("LOWER", "read", "pos-inf"), ("FREE", "neg-inf", "pos-inf"),
+     ("CONSTANT", "read", "same-as-lb"), ("COMPL", "compl", "compl")] ∧ inftyIsDblMax = true := by decide
+
 /-! ## non-vacuity: the contract is satisfiable and the theorem computes -/
 
 def exModel : Model :=
@@ -205,6 +286,36 @@ def exModel : Model :=
     objs := [([], ⟨1, "o", [(1, ⟨false, 1024, 0⟩)], .opN 64 "pl" [.num ⟨false, 1023, 0⟩, .num Dbl.zero, .num ⟨false, 1024, 0⟩, .var 0 "x"]⟩)]
     colsz := [1] }
 
+/-! non-trivial instances of every hypothesis used above -/
+-- C03_opcode_facts: the hypothesis holds for every writer opcode, e.g.
+example : writerInfo 0 = some (kv_ADD, .binary) ∧ writerInfo 64 = some (kv_PLTERM, .plterm) ∧ writerInfo 65 = some (kv_IFSYM, .ifSym) := by decide
+-- C03_expr_roundtrip: grammar-conforming trees in each of the three positions (3 variables + 1 defined variable, 1 function)
+example : wfE ⟨4, 1⟩ .num (.op2 0 "+" (.var 3 "t") (.call 0 "f" [.num ⟨true, 1022, 0⟩, .str "a b", .op3 65 "ifs" (.num Dbl.zero) (.str "x") (.var 0 "")])) = true := by decide
+example : wfE ⟨4, 1⟩ .log (.op2 62 "atleast" (.num ⟨false, 1023, 0⟩) (.opN 59 "count" [.op2 23 "<=" (.var 0 "x") (.num Dbl.zero), .op1 34 "!" (.num Dbl.zero)])) = true := by decide
+example : wfE ⟨4, 1⟩ .sym (.str "only a string") = true ∧ wfE ⟨4, 1⟩ .num (.str "s") = false ∧ wfE ⟨4, 1⟩ .log (.var 0 "") = false := by decide
+example : wfE ⟨4, 1⟩ .num (.opN 64 "pl" [.num ⟨false, 1023, 0⟩, .num Dbl.zero, .num ⟨false, 1024, 0⟩, .var 0 "x"]) = true ∧
+          wfE ⟨4, 1⟩ .num (.opN 64 "pl" [.num ⟨false, 1023, 0⟩, .var 0 "x"]) = false := by decide
+-- C03_header_roundtrip / C03_gen_header_roundtrip: headers with and without logical constraints, complementarity, vbtol
+example : hdrOk exModel.hdr = true := by decide
+example : hdrOk { nv := 3, nac := 2, nlc := 0, ncc := 2, nnlcc := 1, ncdi := 1, nopts := 2, opts := [0, 3, 0, 0, 0, 0, 0, 0, 0], flags := 0, arith := 0 } = true := by decide
+-- C03_nput_packing / C03_nput_exact / C03_int_double_exact: valid doubles in each branch: 1 (short), 32768 (long), 2^31 (double), 0.5 (not an integer)
+example : (⟨false, 1023, 0⟩ : Dbl).Valid ∧ (⟨false, 1023, 0⟩ : Dbl).toInt? = some 1 ∧ (⟨false, 1038, 0⟩ : Dbl).toInt? = some 32768 ∧
+          (⟨true, 1054, 0⟩ : Dbl).toInt? = some (-2147483648) ∧ (⟨false, 1054, 0⟩ : Dbl).toInt? = some 2147483648 ∧
+          (⟨false, 1022, 0⟩ : Dbl).toInt? = none ∧ (⟨false, 0, 5⟩ : Dbl).Valid := by decide
+-- C03_number_text_eq_binary: the hypothesis on the codec is satisfiable (and is what g_fmt/strtod satisfy outside the boundary cases)
+example : ∀ x : Dbl, ((⟨Dbl.normZero, id⟩ : Codec).rd x).normZero = x.normZero := by
+  intro x; simp only [Dbl.normZero]; split <;> simp_all [Dbl.isZero, Dbl.zero]
+-- C03_bounds_partial: ordinary bounds [0, 1], [-∞, 1], [1, 1] with the exact codec
+example : (Dbl.zero.leNegMax = true → Dbl.zero = Dbl.negInf) ∧ ((⟨false, 1023, 0⟩ : Dbl).geMax = true → (⟨false, 1023, 0⟩ : Dbl) = Dbl.posInf) ∧
+          (Dbl.negInf.leNegMax = true → Dbl.negInf = Dbl.negInf) ∧ idCodec.rd Dbl.negInf = Dbl.negInf ∧ idCodec.rd Dbl.posInf = Dbl.posInf := by decide
+-- C03_header_partial / C03_vbtol_roundtrip: a header that carries vbtol
+example : let h : Hdr := { nopts := 3, opts := [2, 3, 3, 0, 0, 0, 0, 0, 0], vbtol := ⟨false, 1019, 4433230883192832⟩ }
+          (h.flags ≠ 0 ∨ h.arith ≠ 0) ∧ 2 ≤ h.nopts ∧ h.opts.length = 9 ∧ h.opts[1]? = some (3 : Int) ∧ idCodec.vb h.vbtol = h.vbtol := by decide
+-- C03_int_suffix_any_value: indices in range, values including INT_MIN and INT_MAX
+example : sparseOk 3 [(0, (-2147483648 : Int)), (2, 2147483647), (1, 0)] = true := by decide
+-- C03_call_zero_args: a context with one function
+example : (0 : Nat) < (⟨idCodec, 2, 3, 1⟩ : RCtx).nf := by decide
+-- C03_roundtrip: the feeder contract holds for a model with every kind of item, in text and binary, every option
 example : wellFormed exModel {} = true := by decide
 example : wellFormed exModel { binary := true, comments := true, boundsFirst := false, colSizes := 2 } = true := by decide
 
